@@ -9,8 +9,8 @@ open CedarGo
 /-! ## entity references -/
 
 theorem entity_uidToks (u : UID) (h : uidOK u = true) (rest : List Token) : entity (uidToks u ++ rest) = .ok (u, rest) := by
-  simp only [uidOK, Bool.and_eq_true] at h
-  obtain ⟨first, parts, hp⟩ := pathOK_of_isPathName u.1 h.1
+  simp only [uidOK] at h
+  obtain ⟨first, parts, hp⟩ := pathOK_of_isPathName u.1 h
   unfold uidToks
   rw [hp.toks]
   unfold entity
@@ -21,7 +21,7 @@ theorem entity_uidToks (u : UID) (h : uidOK u = true) (rest : List Token) : enti
   have e3 : ((idT first).ty == TokType.ident) = true := rfl
   have e4 : (idT first).text = first := rfl
   simp only [e1, e2, e3, e4, ↓reduceIte]
-  rw [entityPath_sepToks parts first u.2 rest ((noFFFD_iff u.2).mp h.2), hp.join]
+  rw [entityPath_sepToks parts first u.2 rest, hp.join]
 
 /-! ## scope clauses -/
 
@@ -83,8 +83,8 @@ theorem scopePR_tail (sc : Scope) (h : scopePROK sc = true) (rest : List Token) 
 
 theorem uidToks_head (u : UID) (h : uidOK u = true) (more : List Token) :
     ∃ first tl, uidToks u ++ more = idT first :: tl ∧ isIdentName first = true := by
-  simp only [uidOK, Bool.and_eq_true] at h
-  obtain ⟨first, parts, hp⟩ := pathOK_of_isPathName u.1 h.1
+  simp only [uidOK] at h
+  obtain ⟨first, parts, hp⟩ := pathOK_of_isPathName u.1 h
   refine ⟨first, sepToks parts ++ [opT "::", strT u.2] ++ more, ?_, hp.ident⟩
   unfold uidToks
   rw [hp.toks]
@@ -192,7 +192,7 @@ theorem annotations_toks : ∀ (anns : List (String × String)) (known : List St
   | (k, v) :: anns, known, rest, h, hr => by
     simp only [annsOK, Bool.and_eq_true, Bool.not_eq_true'] at h
     have ih := annotations_toks anns (k :: known) rest h.2 hr
-    have hk : ¬ k ∈ known := by simpa using h.1.1
+    have hk : ¬ k ∈ known := by simpa using h.1
     have e : annotationToks ((k, v) :: anns) ++ rest = opT "@" :: annTok k :: opT "(" :: strT v :: opT ")" :: (annotationToks anns ++ rest) := by
       simp [annotationToks, annTok]
     rw [e]
@@ -200,7 +200,7 @@ theorem annotations_toks : ∀ (anns : List (String × String)) (known : List St
     have e1 := annTok_ty k
     have e2 : ((strT v).ty != TokType.string) = false := rfl
     simp only [opT, bne_self_eq_false, Bool.false_eq_true, ↓reduceIte, e1, Bool.not_true, annTok_text, List.contains_eq_mem, hk,
-      decide_false, e2, strVal_strT v ((noFFFD_iff v).mp h.1.2), ih]
+      decide_false, e2, strVal_strT v, ih]
 
 /-! ## the whole head -/
 
